@@ -24,7 +24,7 @@ def pct(s):
     return urllib.parse.quote(s, safe='')
 
 
-def rule(pred, exit=0, out='', err='', fault=None):
+def rule(pred, exit=0, out='', err='', fault=None, delay_us=0):
     """One spec line."""
     beh = f'exit={exit}'
     if out:
@@ -33,6 +33,8 @@ def rule(pred, exit=0, out='', err='', fault=None):
         beh += f' err={pct(err)}'
     if fault:
         beh += f' fault={fault}'
+    if delay_us:
+        beh += f' delay={int(delay_us)}'
     return f'{pred} => {beh}'
 
 
@@ -184,6 +186,8 @@ def eval_spec(rules, text):
                     err = urllib.parse.unquote(v)
                 elif k == 'fault':
                     fault = v
+                elif k == 'delay':
+                    pass
             return i, ex, out, err, fault
     return -1, 0, '', '', None
 
